@@ -45,6 +45,10 @@ def box(name):
     if base == 'k3':
         mods = {'a': ('', PRIOS[spec[1]]), 'b': ('', PRIOS[spec[3]])}
         return dict(fam=B(3, 'x', (2, 2, 2), (2, 2, 1), render='tok', mods=mods), alpha='x', lexers=('basic', 'dynamic'))
+    if base == 'eb':        # EBNF bodies (optional items, [..] with placeholders) around a prioritised helper competing with rule b.1
+        helpers = [((families.X,),), ((families.X, ('maybe', ((families.Y,),))),), ((families.X, ('opt', families.Y)),), ((('maybe', ((families.X,),)), families.Y),)]
+        return dict(fam=families.EBNF(2, helpers=helpers, helper_prio=PRIOS[spec[1]], start_alts=(((('ref', 'b'),), None), ((('ref', 'b'), ('ref', 'b')), None))),
+                    alpha='xy', lexers=('basic', 'dynamic'))
     if base == 'tp':
         tprio = {'0': 0, '1': 1, 'm': -1}
         mods = {'a': ('', PRIOS[spec[3]])}
@@ -69,6 +73,9 @@ def _tiers():
         t.append(('tp/%sa%s' % (tpn[:2], tpn[2]), 1, 4))
     for a in '1m':
         t.append(('x2/sna%s' % a, 2, 4))
+    for a in '2m':
+        q.append(('eb/a%s' % a, 8, 3))
+        t.append(('eb/a%s' % a, 1, 4))
     return {'quick': q, 'thorough': t}
 
 
@@ -88,6 +95,7 @@ def check(g, gi, boxname, b, inputs, res, only=None, digest=None, ref=True):
     gtext = g.text()
     named = set(g.terms)
     has_empty = any(len(s) == 0 for r in g.rules.values() for s, _ in r.alts)
+    ebnf_empty = has_empty_expansion(g) and not has_empty
     with_terms = b.get('with_terms', False)
     etext = erase_priorities(g).text()
     for lexer in b['lexers']:
@@ -112,6 +120,9 @@ def check(g, gi, boxname, b, inputs, res, only=None, digest=None, ref=True):
                 continue
             r = larkio.build(gtext, parser='earley', lexer=lexer, ambiguity='resolve', priority=pm)
             res['evals'] += 1
+            if r[0] == 'exc' and 'Rules defined twice' in str(r[1]) and refsem.construction_may_fail(g):
+                res['counters']['construction: documented GrammarError (colliding optionals)'] += 1
+                continue
             if r[0] != 'ok':
                 res['viol'].append({'kind': 'construction-' + larkio.outcome(r), 'cause': 'construction',
                                     'case': {'box': boxname, 'gidx': gi, 'grammar': gtext, 'lexer': lexer, 'priority': pm},
@@ -147,12 +158,15 @@ def check(g, gi, boxname, b, inputs, res, only=None, digest=None, ref=True):
                     if o2 != o:
                         bad('nondeterministic', 'determinism', o, {what: o2})
                 byshape = {}
+                shaped = boxname.startswith('eb/')      # EBNF bodies: the returned tree is the *shaped* derivation (placeholders)
                 for d in D:
-                    byshape.setdefault(norm_ref(refsem.unshaped(d, w)), []).append(d)
+                    key = norm_ref(refsem.shape(d, g, w, False, True)) if shaped else norm_ref(refsem.unshaped(d, w))
+                    byshape.setdefault(key, []).append(d)
                 if o not in byshape:
                     bad('not-a-derivation', 'member', 'one of %d derivations' % len(D), o)
                     continue
-                d = byshape[o][0]
+                pri_all = {x: refsem.priority(x, g, with_terms) for x in D}
+                d = (max if pm != 'invert' else min)(byshape[o], key=lambda x: pri_all[x])      # the best derivation with this shape
                 if pm is None:
                     if plain is None:
                         plain = larkio.build(etext, parser='earley', lexer=lexer, ambiguity='resolve')[1]
@@ -163,7 +177,9 @@ def check(g, gi, boxname, b, inputs, res, only=None, digest=None, ref=True):
                     continue
                 pri = {x: refsem.priority(x, g, with_terms) for x in D}
                 best = max(pri.values()) if pm == 'normal' else min(pri.values())
-                if not has_empty:
+                if ebnf_empty:
+                    res['counters']['EBNF body with an empty expansion: optimum not judged'] += 1
+                elif not has_empty:
                     if pri[d] != best:
                         bad('suboptimal-' + pm, 'optimum-' + pm, {'best_priority': best, 'a_best_tree': norm_ref(refsem.unshaped(
                             [x for x in D if pri[x] == best][0], w))}, {'priority': pri[d], 'tree': o})
@@ -175,6 +191,18 @@ def check(g, gi, boxname, b, inputs, res, only=None, digest=None, ref=True):
                     v = empty_clause(d, g, refsem.Derivations(g, refsem.Edges.chars(g, w, mode)))
                     if v:
                         bad('empty-alternative-precedence', 'empty-precedence', v, o)
+
+
+def has_empty_expansion(g):
+    """Does some rule have an expansion (after ? [..] * ~0..) without any symbol?"""
+    for r in g.rules.values():
+        for seq, _ in r.alts:
+            try:
+                if any(not refsem._erase(e) for e in refsem._expansions(seq, True, [])):
+                    return True
+            except refsem.TooAmbiguous:
+                return True
+    return False
 
 
 def empty_clause(d, g, DV):
